@@ -1,3 +1,4 @@
+import random
 """C17: modules and packages resolve according to the project layout.
 Model: lean/Glas/Model/Project.lean; theorems lean/Glas/Props/C17.lean.  Tie: generated project trees
 on disk; `module_name`, `find_gleam_project_parent`, `lower_vfs`, `assemble_graph` (harness, feature
@@ -185,6 +186,8 @@ def run_c17(res, tier, seed):
         lsp.build_glas()
         for tb, pkgs in e2e:
             run_e2e(res, tb, pkgs)
+        for k in range(3 if tier == "quick" else 20):
+            run_e2e_session(res, f"{base}/multi{k}", random.Random(seed * 1000 + k))
     finally:
         shutil.rmtree(base, ignore_errors=True)
     res.cov["rule"] = (f"{n_trees} generated project trees on disk (application + 0-3 registry (build/packages) and path dependencies, nested "
@@ -193,6 +196,54 @@ def run_c17(res, tier, seed):
                        "graph with locality and direct dependencies; model vs implementation vs the layout by construction. non-trivial = tree "
                        "with at least two packages")
     res.cov["samples"] += [{"request": reqs[i], "impl": io[i] if i < len(io) else None} for i in (0, 1)]
+
+
+def run_e2e_session(res, tb, rng):
+    """several package roots assembled in ONE server session: two independent projects that each carry their own
+    copy of a dependency of the same name, and a path dependency whose file is opened before the application's.
+    Every import must reach the copy under the importing project's own build/packages."""
+    def w(path, text):
+        os.makedirs(os.path.dirname(path), exist_ok=True)
+        open(path, "w").write(text)
+    dep = rng.choice(["shared", "gleam_stdlib", "aaa"])
+    projects = ["one", "two"] if rng.random() < 0.5 else ["two", "one"]
+    for pr in ("one", "two"):
+        w(f"{tb}/{pr}/gleam.toml", f'name = "{pr}"\n[dependencies]\n{dep} = "1.0"\n')
+        w(f"{tb}/{pr}/build/packages/{dep}/gleam.toml", f'name = "{dep}"\n')
+        w(f"{tb}/{pr}/build/packages/{dep}/src/util.gleam", f"pub fn version() {{ \"{pr}\" }}\n")
+        w(f"{tb}/{pr}/src/{pr}.gleam", "import util\npub fn main() {\n  util.version()\n}\n")
+    # a path dependency that needs the same dependency (it has no copy of its own: as part of `app` it uses app's)
+    w(f"{tb}/lib/gleam.toml", f'name = "lib"\n[dependencies]\n{dep} = "1.0"\n')
+    w(f"{tb}/lib/src/lib.gleam", "pub fn helper() {\n  1\n}\n")
+    w(f"{tb}/app/gleam.toml", f'name = "app"\n[dependencies]\nlib = {{ path = "../lib" }}\n{dep} = "1.0"\n')
+    w(f"{tb}/app/build/packages/{dep}/gleam.toml", f'name = "{dep}"\n')
+    w(f"{tb}/app/build/packages/{dep}/src/util.gleam", "pub fn version() { \"app\" }\n")
+    w(f"{tb}/app/src/app.gleam", "import util\nimport lib\npub fn main() {\n  util.version()\n  lib.helper()\n}\n")
+    order = [(pr, f"{tb}/{pr}/src/{pr}.gleam") for pr in projects] + [("app", f"{tb}/app/src/app.gleam")]
+    rng.shuffle(order)
+    c = lsp.Lsp(tb)
+    try:
+        if c.initialize() is None:
+            return
+        for pr, path in order:
+            c.notify("textDocument/didOpen", {"textDocument": {"uri": "file://" + path, "languageId": "gleam", "version": 1, "text": open(path).read()}})
+        for pr, path in order:
+            text = open(path).read()
+            off = text.index("util.version") + 5
+            line = text.count("\n", 0, off); col = off - (text.rfind("\n", 0, off) + 1)
+            r = c.request("textDocument/definition", {"textDocument": {"uri": "file://" + path}, "position": {"line": line, "character": col}}, timeout=30)
+            res.cov["evaluations"] += 1
+            target = None
+            if r and r.get("result"):
+                loc = r["result"][0] if isinstance(r["result"], list) else r["result"]
+                target = loc.get("uri") or loc.get("targetUri")
+            want = "file://" + f"{tb}/{pr}/build/packages/{dep}/src/util.gleam"
+            if target is None or os.path.normpath(target[7:]) != want[7:]:
+                res.add_violation("C17/import-resolves-into-another-project",
+                                  f"`util.version` in {pr} (opened {'after' if order.index((pr, path)) else 'first'}) resolves to {str(target).replace(tb, '')}, its own dependency is {want.replace('file://' + tb, '')}",
+                                  {"tree": tb, "order": [p for p, _ in order], "dependency": dep, "answer": r})
+    finally:
+        c.close()
 
 
 def run_e2e(res, tb, pkgs):
